@@ -296,6 +296,10 @@ def run(rep, tier):
         # each lazily parsed slice is scanned by a fresh Parser: the scanner's white-space cache is per buffer (shared with C02 clause f)
         from . import c02
         c02.clause_f(facts, rep)
+        # a lazily parsed key is decoded only when SkipString reports an escape (shared with C10 / C05)
+        from . import c10
+        c10.clause_escape_flag(facts, rep, ns)
+        c10.clause_escape_carry(facts, rep, ns)
     rep.min_instances('E3.decode-buffer', 4)
     rep.trust('clang 14 front end', 'zone analysis and callee summaries of C11', 'contract of parseStringInplace: scans to the first unescaped quote with VEC_LEN-byte block loads')
     rep.assumptions += [
